@@ -2,16 +2,17 @@
 
 // Contracts for the deductive checks (comment-only). Scope: value types of package types
 
-// C09 rendering rules (structural, checked against the struct tags on every run): these attributes default to
-// TRUE when absent from a file (transform/dependson.go, transform/envfile.go), so `false` -- the Go zero value --
-// must always be written by the YAML and JSON renderers; an `omitempty` here makes a rendered project reload differently.
-//@ rendered[C09] ServiceDependency.Required : absent means true, so false must be rendered
-//@ rendered[C09] EnvFile.Required : absent means true, so false must be rendered
 // (mapping.go labels.go hostList.go command.go healthcheck.go bytes.go duration.go stringOrList.go
 // ssh.go envfile.go device.go cpus.go options.go and the Marshal*/DecodeMapstructure methods of
 // types.go / config.go). Properties served: C03 C09 C16 C20.
 
 package types
+
+// C09 rendering rules (structural, checked against the struct tags on every run): these attributes default to
+// TRUE when absent from a file (transform/dependson.go, transform/envfile.go), so `false` -- the Go zero value --
+// must always be written by the YAML and JSON renderers; an `omitempty` here makes a rendered project reload differently.
+//@ rendered[C09] ServiceDependency.Required : absent means true, so false must be rendered
+//@ rendered[C09] EnvFile.Required : absent means true, so false must be rendered
 
 // KEY[=VALUE] grammar of the Compose specification: the key is the text before the first '=',
 // the value the text after it; an entry without '=' is a key without value.
